@@ -5,17 +5,17 @@ func init() {
 		Explanation: "Decides: (R1) a failed openLocalPort closes every socket opened so far in a loop, records nothing and fails; in the request handler a failed port-mapping setup is cleaned up, mappings are set up only after a successful ADD and removed only after a successful DEL; (R2) setup, cleanup and full sync compute the chain name with hostportChainName(port, port.PodName); (R3) every `-X` line names a hostportChainName result or is behind HasPrefix(chain, KUBE-HP-) and the not-active test; (R4) podPortMap is accessed only under the handler mutex, and CloseHostports closes the sockets and deletes the entry inside the critical section of its lookup; (R5) the full sync writes a chain line (flush), the jump rule and the chain rules for every given port on every path, and restores without flushing the table. (R6) the failure clean-up closes only sockets this call opened, the port file is removed only after a successful clean; (R7) the port file is saved before any iptables rule is written, and setup, full sync and clean rewrite the same set of k8s.Port fields before deriving the rule text (the remover re-derives the exact rule). (R8) cleanupPortMapping closes the pod's sockets on every path, and the restart sync (setupIPtables) skips a pod only on conditions over Status.PodIP, Spec.HostNetwork, the annotations or a decode error. Does not decide inverse/convergence laws over arbitrary NAT tables nor port distinctness (kernel behaviour).",
 		Assumptions: []string{"CFG paths; iptables lines are identified by their constant words and the provenance of the chain operand"},
 		Run: func(c *Ctx) {
-			c.Rule("C14.R1", "open/close pairing, chain naming, -X ownership, full sync completeness", 10)
+			c.Rule("C14.R1", "open/close pairing, chain naming, -X ownership, full sync completeness", 5)
 			ruleHostPorts(c, "C14.R1")
-			c.Rule("C14.R6", "failure clean-up closes only own sockets; port file removed only after a successful clean", 2)
+			c.Rule("C14.R6", "failure clean-up closes only own sockets; port file removed only after a successful clean", 1)
 			ruleHostPortOwnership(c, "C14.R6")
-			c.Rule("C14.R7", "port file before iptables; producers and remover of KUBE-HOSTPORTS rules agree on the port fields", 2)
+			c.Rule("C14.R7", "port file before iptables; producers and remover of KUBE-HOSTPORTS rules agree on the port fields", 1)
 			rulePortRecordFirst(c, "C14.R7")
-			c.Rule("C14.R8", "teardown always closes the sockets; the restart sync covers every pod with an ip", 2)
+			c.Rule("C14.R8", "teardown always closes the sockets; the restart sync covers every pod with an ip", 1)
 			rulePortTeardownAndResync(c, "C14.R8")
-			c.Rule("C14.R2", "port mapping pairing in the request handler", 3)
+			c.Rule("C14.R2", "port mapping pairing in the request handler", 1)
 			ruleRequestPortMapping(c, "C14.R2")
 			c.Rule("C14.R4", "podPortMap only under the handler mutex", 2)
-			ruleGuardedBy(c, "C14.R4", []string{"PortMappingHandler.Mutex"}, 4)
+			ruleGuardedBy(c, "C14.R4", []string{"PortMappingHandler.Mutex"}, 2)
 		}})
 }
